@@ -48,9 +48,8 @@ ASSUMPTIONS = [
     "member names are unique, relative, without '.'/'..' components (wf_archive); members are regular files, "
     "empty files and directories (no links, no sockets)",
     "the destination directory is fresh and empty; extraction of one archive object is followed by reset() or reopening",
-    "no member name is a proper string prefix of another except along '/' (the property's side condition); absent "
-    "target names are no string prefix of a member name in the all-subsets exploration (the prefix case is the "
-    "separate `recursive-absent-string-prefix` probe)",
+    "no member name is a proper string prefix of another except along '/' (the property's side condition; checked "
+    "per archive); absent target names include string prefixes of member names that are no path prefixes",
     "recursive is exactly False or True (any other value makes _extract skip the filter altogether)",
 ]
 
@@ -164,7 +163,7 @@ def impl_sel(T, rec, name):
     if T is None:
         return True
     tn = [rts(t) for t in T]
-    return name in tn or (rec and any(name.startswith(t) for t in tn))
+    return name in tn or (rec and any(name.startswith(t + "/") for t in tn))
 
 
 def ancestors(name):
@@ -348,8 +347,15 @@ def get_model(want):
 
 # ------------------------------------------------------------------ targets
 def absent_names(names):
+    """names that are neither a member nor a directory above a member; the second one is a string prefix (not a
+    path prefix) of a member name where there is one"""
+    def absent(c):
+        return c and c not in names and not c.endswith("/") and not any(n.startswith(c + "/") for n in names)
     cands = ["nope.txt", "zz/absent.bin", "q", "sub0/none", "été"]
-    return [c for c in cands if c not in names and not any(n.startswith(c) for n in names)][:2]
+    out = [c for c in cands if absent(c)][:1]
+    pref = [n[:k] for n in names for k in (len(n) - 1, 1) if absent(n[:k])]
+    out += pref[:1] if pref else [c for c in cands if absent(c)][1:2]
+    return out
 
 
 def present(sub, names, variant):
@@ -453,12 +459,12 @@ def explore(job):
             if mi[0] != len(ids) or [[tuple(p) for p in row] for row in mi[1]] != ids:
                 viol("folder numbering: implementation %r, model %r" % (ids, mi), {"kind": "numbering", "archive": spec},
                      {"kind": "numbering-model"}, concrete=False)
-            cond = model.call("sel_conditions", [mar, [], 1 if stored else 0])
+            cond = model.call("sel_conditions", [mar, 1 if stored else 0])
             if cond[0] != 1 or cond[1] != 1:
                 viol("harness archive does not meet wf_archive/prefix_free_names: %r" % (cond,),
                      {"kind": "harness", "archive": spec}, {"kind": "harness"}, concrete=False)
-            if (cond[3] == 1) != (not gap or stored):
-                viol("ids_consistent of the model (%r) disagrees with the layout (gap=%r)" % (cond[3], gap),
+            if (cond[2] == 1) != (not gap or stored):
+                viol("ids_consistent of the model (%r) disagrees with the layout (gap=%r)" % (cond[2], gap),
                      {"kind": "harness", "archive": spec}, {"kind": "harness"}, concrete=False)
         # full extraction, both outputs
         full = {}
@@ -740,9 +746,7 @@ def check_absent_prefix(ctx, rep):
         want, _ = expected(contents, T, rec, False)
         rep.count(("prefix", repr(T), rec), nontrivial=True)
         layout = [(e[0], ("data", 0) if e[1] == "data" else (e[1],)) for e in PREFIX_PROBE["entries"]]
-        if model is not None and (files != want or exc is not None):
-            # the deviation has to be the modelled one (str.startswith); when the implementation follows the
-            # specification here (prefix test repaired) model and code agree wherever targets_prefix_ok holds
+        if model is not None:
             mo, mf, md = model_run(model, "sel_impl_extract", model_archive(layout, contents), T, rec, "factory", False)
             if mf != files:
                 rep.violation("model of the code and implementation disagree on absent prefix targets %r: %r vs %r" % (
@@ -751,7 +755,7 @@ def check_absent_prefix(ctx, rep):
         if (files != want or exc is not None) and not reported:
             reported = True
             rep.violation("extract(targets=%r, recursive=%r): %r is not a member name, yet %r delivered (exception %r); "
-                          "_extract matches with str.startswith, not along '/'" % (T, rec, T, sorted(files), exc),
+                          "recursive matching has to go along '/'" % (T, rec, T, sorted(files), exc),
                           {"kind": "prefix", "targets": T, "recursive": rec},
                           match_keys={"kind": "recursive-absent-string-prefix"})
 
